@@ -12,6 +12,8 @@
    backend iterator yields 1-2 items and THEN the error (page sizes 1, 2 and the default).
    Size classes: messages of 1900..6000 bytes and details listing 1..90 digests (error bodies below
    and above net/http's 2048-byte buffer, up to just below the client's 8 KiB limit) on every carrier.
+   Writer carriers: the error is raised by the backend's BlobWriter (Write reached through PushBlob's
+   closing PUT, through Write-then-Commit, through an overflowing Write's PATCH; Close; Commit).
    The thorough tier adds seeded-random trees (nested wrappers, several joined codes, random
    statuses 400..599, random messages and JSON details) over all 18 carriers.
 3. TLC validates every recorded case against OciErrorTrace.
@@ -29,6 +31,7 @@ HEAD = ['ResolveBlob', 'ResolveManifest', 'ResolveTag']
 BODY = ['GetBlob', 'GetBlobRange', 'GetManifest', 'GetTag', 'PushBlob', 'PushBlobChunked',
         'PushBlobChunkedResume', 'MountBlob', 'PushManifest', 'DeleteBlob', 'DeleteManifest', 'DeleteTag',
         'Repositories', 'Tags', 'Referrers']
+WRITER = ['WPushBlob', 'WWriteCommit', 'WWritePatch', 'WClose', 'WCommit']
 HOPS = 3
 
 
@@ -52,6 +55,8 @@ def batch_key(e):
         return 'resume'
     if e.get('nitems', 0) > 0:
         return 'listitems'
+    if e['carrier'] in WRITER:
+        return 'writer'
     if any(t['t'] == 'E' for n in nodes for t in n['msg']) or any(n['k'] == 'http' and not n['kids'] for n in nodes):
         return 'emptyish'
     if any(n['k'] == 'http' and n['status'] == 416 for n in nodes):
@@ -75,7 +80,7 @@ def regroup(src, dst, chunk=450):
             e = json.loads(line)
             key = batch_key(e) if e.get('op') == 'case' else 'panic'
             # a label that lets the runner's report tell kinds of rejected events apart (not read by the spec)
-            e['msg'] = '%s/%s' % (key or 'plain', e['carrier'] if e['carrier'] in HEAD + ['PushBlobChunkedResume'] else 'body carrier')
+            e['msg'] = '%s/%s' % (key or 'plain', e['carrier'] if e['carrier'] in HEAD + WRITER + ['PushBlobChunkedResume'] else 'body carrier')
             groups.setdefault(key, []).append(json.dumps(e, separators=(',', ':')))
     with open(dst, 'w') as f:
         f.write(hdr + '\n')
@@ -178,6 +183,11 @@ def run(ctx):
             # listings whose backend yields items and THEN the error: all three listing carriers
             for c in ['Tags', 'Repositories', 'Referrers']:
                 cases.append(dict(id=len(cases), carrier=c, hops=HOPS, err=g['err'], nitems=g['nitems'], page=g['page']))
+            continue
+        if g['kind'] == 'WRITER':
+            # the backend's BlobWriter fails (Write via closing PUT / Commit / PATCH, Close, Commit)
+            for c in WRITER:
+                cases.append(dict(id=len(cases), carrier=c, hops=HOPS, err=g['err'], nitems=0, page=0))
             continue
         if g['kind'] == 'HEAD':
             lst = HEAD if (not quick or g.get('sweep') or g.get('size')) else [HEAD[nh % 3]]
